@@ -20,6 +20,31 @@ fn hex(s: &str) -> String {
 
 fn main() {
     let a: Vec<String> = std::env::args().collect();
+    if a.len() >= 2 && a[1] == "serve" {
+        // one long-lived process (and thread) for a whole history of runs: each stdin line holds the arguments of one
+        // run, tab separated; the outcome is answered on stdout.  What a run leaves behind inside the process meets the
+        // next run.
+        use std::io::{BufRead, Write};
+        let stdin = std::io::stdin();
+        for line in stdin.lock().lines() {
+            let line = line.unwrap();
+            let mut args = vec![a[0].clone()];
+            args.extend(line.split('\t').map(|x| x.to_string()));
+            let r = std::panic::catch_unwind(|| one_run(&args));
+            let out = std::io::stdout();
+            let mut o = out.lock();
+            match r {
+                Ok(s) => writeln!(o, "{}", s).unwrap(),
+                Err(_) => writeln!(o, "PANIC").unwrap(),
+            }
+            o.flush().unwrap();
+        }
+        return;
+    }
+    println!("{}", one_run(&a));
+}
+
+fn one_run(a: &[String]) -> String {
     let mode = a[1].as_str();
     let mut c = if mode.starts_with("dir") {
         Compile::directory(&a[2])
@@ -61,11 +86,11 @@ fn main() {
     }
     if mode.ends_with("_exit") {
         c.run_exit_on_error();
-        println!("RETURNED");
+        "RETURNED".to_string()
     } else {
         match c.run() {
-            Ok(()) => println!("OK"),
-            Err(e) => println!("ERR {}", hex(&format!("{:#}", e))),
+            Ok(()) => "OK".to_string(),
+            Err(e) => format!("ERR {}", hex(&format!("{:#}", e))),
         }
     }
 }
